@@ -147,6 +147,22 @@ class WorkingHours:
             if dt is None:
                 return False
 
+        return self.onShiftAt(dt)
+
+    def hasCustomHours(self) -> bool:
+        """True once set_hours() has been called."""
+        return self._custom_hours_set
+
+    def onShiftAt(self, dt: Any) -> bool:
+        """
+        Check if a local date/time is within the working hours.
+
+        Args:
+            dt: datetime in the time zone the hours are written in
+
+        Returns:
+            True if the instant is within working hours
+        """
         weekday = dt.weekday()
 
         slot_minutes = dt.hour * 60 + dt.minute
